@@ -101,6 +101,17 @@ func runC17(r *report.Run) {
 	par.For(1<<16, func(_, ci int) {
 		c := uint16(ci)
 		var ev, nt, sat int64
+		reported := 0
+		var further int64
+		report := func(sig, what string, cs c17Case) {
+			// a defect typically hits millions of triples: describe the first few per colour, count the rest
+			if reported < 4 {
+				r.Violation(sig, what, cs)
+			} else {
+				further++
+			}
+			reported++
+		}
 		for d := 1; d < 256; d++ {
 			var prev uint16
 			for m := 0; m < 256; m++ {
@@ -111,11 +122,16 @@ func runC17(r *report.Run) {
 					nt++
 				}
 				if got != want {
-					sig, what := c17CheckOne(c17Case{Op: "muldiv", Color: c, Mul: uint8(m), Div: uint8(d)})
-					r.Violation(sig, what, c17Case{Op: "muldiv", Color: c, Mul: uint8(m), Div: uint8(d)})
+					if reported < 4 {
+						sig, what := c17CheckOne(c17Case{Op: "muldiv", Color: c, Mul: uint8(m), Div: uint8(d)})
+						report(sig, what, c17Case{Op: "muldiv", Color: c, Mul: uint8(m), Div: uint8(d)})
+					} else {
+						reported++
+						further++
+					}
 				}
 				if got&0x8000 != 0 || got&31 > 31 {
-					r.Violation("unexplained:bit15", fmt.Sprintf("Color($%04x).MulDiv(%d,%d) = $%04x sets bit 15", c, m, d, got), c17Case{Op: "muldiv", Color: c, Mul: uint8(m), Div: uint8(d)})
+					report("unexplained:bit15", fmt.Sprintf("Color($%04x).MulDiv(%d,%d) = $%04x sets bit 15", c, m, d, got), c17Case{Op: "muldiv", Color: c, Mul: uint8(m), Div: uint8(d)})
 				}
 				// a larger ratio never darkens a channel: monotone in m for fixed d (checked on the implementation itself)
 				if m > 0 && (got&31 < prev&31 || got>>5&31 < prev>>5&31 || got>>10&31 < prev>>10&31) {
@@ -123,7 +139,7 @@ func runC17(r *report.Run) {
 					if got == c17NarrowMulDiv(c, uint8(m), uint8(d)) && prev == c17NarrowMulDiv(c, uint8(m-1), uint8(d)) {
 						sig = "muldiv-narrows-before-clamp"
 					}
-					r.Violation(sig, fmt.Sprintf("Color($%04x).MulDiv(%d,%d)=$%04x darker than MulDiv(%d,%d)=$%04x", c, m, d, got, m-1, d, prev), c17Case{Op: "muldiv", Color: c, Mul: uint8(m), Div: uint8(d)})
+					report(sig, fmt.Sprintf("Color($%04x).MulDiv(%d,%d)=$%04x darker than MulDiv(%d,%d)=$%04x", c, m, d, got, m-1, d, prev), c17Case{Op: "muldiv", Color: c, Mul: uint8(m), Div: uint8(d)})
 				}
 				prev = got
 				if m == d && got != c&0x7FFF && want == c&0x7FFF {
@@ -146,7 +162,7 @@ func runC17(r *report.Run) {
 					if got == c17NarrowMulDiv(c, uint8(m), uint8(d)) && prev == c17NarrowMulDiv(c, uint8(m), uint8(d+1)) {
 						sig = "muldiv-narrows-before-clamp"
 					}
-					r.Violation(sig, fmt.Sprintf("Color($%04x).MulDiv(%d,%d)=$%04x darker than MulDiv(%d,%d)=$%04x", c, m, d, got, m, d+1, prev), c17Case{Op: "muldiv", Color: c, Mul: uint8(m), Div: uint8(d)})
+					report(sig, fmt.Sprintf("Color($%04x).MulDiv(%d,%d)=$%04x darker than MulDiv(%d,%d)=$%04x", c, m, d, got, m, d+1, prev), c17Case{Op: "muldiv", Color: c, Mul: uint8(m), Div: uint8(d)})
 				}
 				prev = got
 			}
@@ -155,8 +171,11 @@ func runC17(r *report.Run) {
 			cs := c17Case{Op: op, Color: c}
 			ev++
 			if sig, what := c17CheckOne(cs); sig != "" {
-				r.Violation(sig, what, cs)
+				report(sig, what, cs)
 			}
+		}
+		if further > 0 {
+			r.Add("further_violating_cases_not_described", further)
 		}
 		atomic.AddInt64(&evals, ev)
 		atomic.AddInt64(&nontrivial, nt)
